@@ -20,6 +20,16 @@ import (
 	"strings"
 )
 
+// MapRange lists the (printed) operand expressions of `range` statements over maps whose
+// iteration order the explorer must own.
+var MapRange = map[string]bool{}
+
+func exprString(e ast.Expr) string {
+	var b bytes.Buffer
+	format.Node(&b, token.NewFileSet(), e)
+	return b.String()
+}
+
 var importMap = map[string][2]string{
 	"sync":        {"sync", "verif/engine/vrt/vsync"},
 	"sync/atomic": {"atomic", "verif/engine/vrt/vatomic"},
@@ -225,8 +235,20 @@ func (r *rewriter) post(n ast.Node) ast.Node {
 			return b
 		}
 	case *ast.RangeStmt:
-		// ranging over a channel cannot be recognised without type information; the packages
-		// under test do not do it. A `range` whose operand is a receive-only helper is left alone.
+		// Ranging over a channel cannot be recognised without type information; the packages under
+		// test do not do it. Ranging over a *map* named with -maprange is owned by the explorer:
+		// `for k = range m` becomes `for _, k = range vrt.MapKeys(m)` (explored choice of the first key).
+		if MapRange[exprString(x.X)] {
+			if x.Value != nil || x.Key == nil {
+				r.err = fmt.Errorf("%s: -maprange supports only the `for k := range m` form", r.file)
+				break
+			}
+			r.usesVrt = true
+			r.touched = true
+			x.Value = x.Key
+			x.Key = id("_")
+			x.X = call(sel("vrt", "MapKeys"), x.X)
+		}
 	}
 	return n
 }
